@@ -136,6 +136,7 @@ class UBXMessage:
 
         except (
             AttributeError,
+            IndexError,
             struct.error,
             TypeError,
             ValueError,
